@@ -69,7 +69,7 @@ def data_sets(rep, tier, nat):
                 if nochange: toks[0] = ("S", (0x0008, 0x1115), 8 + el)
 
                 def build(ctx, toks=toks, nochange=nochange):
-                    sink = c04.FailSink(BitVec("fail_at", 8))
+                    sink = c04.FailSink(BitVec("fail_at", 8), Bool("zero_length_write"))
                     printer = core.Struct([sink, core.Struct([]), core.Enum("Default", []), BitVecVal(0, 64), c04.Sink([])])
                     strat = core.Enum("NoChange" if nochange else "SetUndefined", []); strat.idx = 1 if nochange else 0
                     dw = core.Struct([printer, core.VecV([]), core.Enum("None", []), core.Struct([strat])])
@@ -95,7 +95,7 @@ def data_sets(rep, tier, nat):
                                     else: box["problem"] = "write(%s) returned an error although no call of the writer failed" % tk.variant
                                     return BoolVal(not sink.failed)
                                 if sink.failed:
-                                    box["k"] = sink.calls
+                                    box["k"] = sink.calls; box["kind"] = sink.kind
                                     box["problem"] = "write(%s) returned Ok although call %d of the underlying writer failed" % (tk.variant, sink.calls); return BoolVal(True)
                     except core.ReachablePanic as ex:
                         box["problem"] = "panic reachable: %s" % ex; return BoolVal(True)
@@ -106,7 +106,7 @@ def data_sets(rep, tier, nat):
                 rep.nontrivial += res["paths"]
                 name = "DataSetWriter::write over a token stream (sequence, element, text element, encapsulated pixel data) [%s, %s strategy] with the writer failing at a solver-chosen call: Err, never Ok after the failure" % (codec, "NoChange" if nochange else "default")
                 verdict(rep, nat, name, res, box, "data set writer %s %s" % (codec, "NoChange" if nochange else "default"),
-                        lambda k, codec=codec, nochange=nochange: ["io_fail", "ds", codec, "nochange" if nochange else "default", k])
+                        lambda k, codec=codec, nochange=nochange, box=box: ["io_fail", "ds", codec, "nochange" if nochange else "default", k, box.get("kind", "err")])
     finally:
         core.EXTRA_CONTRACTS[:] = []
         for p in paths.values():
